@@ -19,7 +19,7 @@ VERIF = os.path.dirname(os.path.dirname(os.path.abspath(__file__)))
 REPO = os.environ.get("VERIF_REPO", "/repo")
 
 
-def extract_item(repo, rel, sel, within=None, methods=None, with_attrs=False):
+def extract_item(repo, rel, sel, within=None, methods=None, with_attrs=False, attr_contains=None):
     p = os.path.join(repo, rel)
     if not os.path.exists(p):
         raise RuntimeError("lost anchor: %s missing" % rel)
@@ -35,6 +35,9 @@ def extract_item(repo, rel, sel, within=None, methods=None, with_attrs=False):
         pool = items
     kind, _, name = sel.partition(" ")
     found = [it for it in pool if it.kind == kind and it.name == name]
+    if attr_contains:
+        # cfg-gated twins (unix / windows variant of one function): the one whose attributes contain the given text
+        found = [it for it in found if attr_contains in txt[it.attr_start:it.start]]
     if len(found) != 1:
         raise RuntimeError("lost anchor: `%s` in %s: %d matches" % (sel, rel, len(found)))
     it = found[0]
@@ -203,7 +206,7 @@ def run_kani_unit(name, workdir, tier, prop):
             elif e.get("macro_body"):
                 text, line = extract_macro_body(REPO, e["file"], e["macro_body"])
             else:
-                text, line = extract_item(REPO, e["file"], e["sel"], within=e.get("within"), with_attrs=bool(e.get("with_attrs")))
+                text, line = extract_item(REPO, e["file"], e["sel"], within=e.get("within"), with_attrs=bool(e.get("with_attrs")), attr_contains=e.get("attr_contains"))
             for a, b in e.get("replace", []) + cfg.get("replace_all", []):
                 text = text.replace(a, b)
             if e.get("drop_attrs"):
